@@ -291,6 +291,72 @@ func (o *ProgressOracle) AfterCycle(r *Run, cycle int, all []Decision) {
 				cycle, gname, g.Queue, len(pend), d0.CPUm, d0.MemB, d0.GPUs, need, fit, where)
 		}
 	}
+	// ---- (A2) work conservation for the surplus pods of an elastic workload: once the gang minimum is held (by running
+	// pods and by pods placed in this cycle) the allocate action places the further pods one by one and tries the next
+	// one after every success. If every remaining pending pod fits on idle capacity on its own, the one that is next in
+	// order does, so none may be left. (Pods of different size are allowed: all of them must fit, each alone.)
+	evictedGroup := map[string]bool{}
+	placedPod := map[string]bool{}
+	victimPlaced := map[string]bool{}
+	for _, d := range ds {
+		if p := pre.Pods[d.Pod]; p != nil {
+			switch {
+			case d.Kind == "evict":
+				evictedGroup[p.Group] = true
+			case d.Kind == "bind" || d.Kind == "pipeline":
+				placedPod[d.Pod] = true
+				if d.Action != "allocate" {
+					victimPlaced[p.Group] = true
+				}
+			}
+		}
+	}
+	for _, gname := range sortedKeys(pre.Groups) {
+		g := pre.Groups[gname]
+		if len(g.Sets) != 1 || g.Sets[""] == nil || evictedGroup[gname] || victimPlaced[gname] || len(cfg.QueueDepth) > 0 {
+			continue
+		}
+		held, simple := 0, true
+		var rest []*RefPod
+		for _, p := range g.Pods {
+			switch {
+			case !plainPod(p) || p.Deleting:
+				simple = false
+			case p.Active || placedPod[p.Name]:
+				held++
+			case p.Pending:
+				rest = append(rest, p)
+			default:
+				simple = false // finished, gated, ...: leave such workloads to the other rules
+			}
+		}
+		if !simple || len(rest) == 0 || held == 0 || int32(held) < g.Sets[""].Min {
+			continue
+		}
+		r.Probe("c05_elastic_workloads_with_surplus_judged")
+		allFit := true
+		for _, p := range rest {
+			d := p.Demand
+			if !withinQueueRules(g, vec3{float64(d.GPUs), float64(d.CPUm), float64(d.MemB)}) {
+				allFit = false
+				break
+			}
+			fits := false
+			for _, f := range free {
+				if f.cpu >= d.CPUm && f.mem >= d.MemB && f.gpus >= d.GPUs && f.pods >= 1 {
+					fits = true
+				}
+			}
+			if !fits {
+				allFit = false
+				break
+			}
+		}
+		if allFit {
+			r.Fail("C05", "fitting_surplus_pod_left_pending", "cycle %d: elastic workload %s (queue %s, min %d) holds %d pods after the cycle (running or placed now) and its %d remaining pending pods (first: %s {cpu %dm, mem %d, gpus %d}) each fit on idle capacity within its queues' limits, yet none of them was placed",
+				cycle, gname, g.Queue, g.Sets[""].Min, held, len(rest), rest[0].Name, rest[0].Demand.CPUm, rest[0].Demand.MemB, rest[0].Demand.GPUs)
+		}
+	}
 	if r.S.Profile == "unobstructed-departments" {
 		o.departmentReclaim(r, cycle, placedAny)
 		return
